@@ -71,6 +71,9 @@ static void apply_net(const Net& net, T* a, C c) {
     for (auto& p : net) if (c(a[p.second], a[p.first])) std::swap(a[p.first], a[p.second]);
 }
 
+static int keyof(const std::string& x) { return atoi(x.c_str()); }
+static int idof(const std::string& x) { return atoi(x.c_str()); }
+static bool same(const std::string& a, const std::string& b) { return a == b; }
 static int keyof(int x) { return x; }
 static int keyof(const KV& x) { return x.key; }
 static int idof(int x) { return x; }
@@ -340,6 +343,20 @@ int main(int argc, char** argv) {
                 run_all_entry(n, a, std::less<int>(), "less/extreme-int");
                 run_defaults(n, a);
                 if (w == 0) run_all_entry(n, a, std::greater<int>(), "greater/extreme-int");
+            }
+        }
+        g_count_distinct = true;
+    }
+    // (1e) element types that point into themselves (short std::string keys live in the object's own buffer): a conditional swap
+    // that copies object representations instead of calling std::swap breaks exactly these; plus long (heap) strings
+    {
+        for (int n = 0; n <= 16; ++n) {
+            uint32_t total = 1u << n, stride = (thorough || n <= 9) ? 1 : 97;
+            for (uint32_t mask = 0; mask < total; mask += stride) for (int w = 0; w < 2; ++w) {
+                std::string a[16];
+                for (int i = 0; i < n; ++i) a[i] = ((mask >> i) & 1) ? (w ? "1000000000000000000000000000000000000001" : "1") : (w ? "0000000000000000000000000000000000000000" : "0");
+                g_count_distinct = false;
+                run_all_entry(n, a, std::less<std::string>(), w ? "less/long-string" : "less/short-string");
             }
         }
         g_count_distinct = true;
